@@ -106,10 +106,13 @@ func parseSingleConstraint(c string) ([]*constraint, error) {
 		return parseTildeRange(c[1:])
 	}
 
-	// Handle x-range (1.x, 1.2.x): the last component is the wildcard. A letter x elsewhere
-	// (a pre-release such as 1.0.0-next.1) is part of a version.
-	if i := strings.LastIndex(c, "."); i >= 0 && (c[i+1:] == "x" || c[i+1:] == "X") {
-		return parseXRange(c)
+	// Handle x-range (1.x, 1.2.x): the last component of the release part is the wildcard. A
+	// letter x in a pre-release or in build metadata (1.0.0-next.1, 1.0.0-rc.x, 1.0.0+build.x)
+	// is part of a version.
+	if !strings.ContainsAny(c, "-+") {
+		if i := strings.LastIndex(c, "."); i >= 0 && (c[i+1:] == "x" || c[i+1:] == "X") {
+			return parseXRange(c)
+		}
 	}
 
 	// Handle comparison operators
